@@ -14,7 +14,7 @@ import itertools
 import types
 import z3
 
-from props.common import Candidate, Job, result_from_engines
+from props.common import Candidate, Job, result_from_engines, JobResult
 from symx import patch
 from symx.core import (Engine, SymBool, SymTok, mkbool, z3val_to_py,
                        Inconclusive)
@@ -439,7 +439,82 @@ def job_load(job):
   return r
 
 
-REACH = {'step': ['add', 'resolve'], 'load': ['load']}
+def job_load_real(job):
+  """Exhaustive over 2-rule recipes drawn from real configs (incl.
+  skip_checks=True ones that only pass because of it): loading the list
+  through Quantizer.load_quantization_recipe equals entering the rules one by
+  one with update_quantization_recipe - same exported recipe, same
+  resolution for every operator of the alphabet and two scopes."""
+  import copy, json
+  T = qtyping.TensorQuantizationConfig
+  cfgs = [
+      qtyping.OpQuantizationConfig(
+          weight_tensor_config=T(num_bits=8, symmetric=True),
+          compute_precision=qtyping.ComputePrecision.INTEGER),
+      qtyping.OpQuantizationConfig(
+          weight_tensor_config=T(num_bits=4, symmetric=True),
+          compute_precision=qtyping.ComputePrecision.INTEGER, skip_checks=True),
+      qtyping.OpQuantizationConfig(
+          weight_tensor_config=T(num_bits=16, dtype=qtyping.TensorDataType.FLOAT),
+          compute_precision=qtyping.ComputePrecision.FLOAT,
+          explicit_dequantize=True, skip_checks=True),
+      qtyping.OpQuantizationConfig(
+          activation_tensor_config=T(num_bits=8, symmetric=False),
+          weight_tensor_config=T(num_bits=8, symmetric=True),
+          compute_precision=qtyping.ComputePrecision.INTEGER),
+  ]
+  algs = [_Alg.MIN_MAX_UNIFORM_QUANT, _Alg.FLOAT_CASTING, _Alg.NO_QUANTIZE]
+  ops = [_Op.ALL_SUPPORTED, _Op.FULLY_CONNECTED, _Op.CONV_2D, _Op.ADD]
+  rules = [(rx, op, alg, c) for rx in ('.*', 'fc') for op in ops
+           for alg in algs for c in range(len(cfgs))]
+  bad, n = [], 0
+  for r1 in rules:
+    for r2 in rules[::3]:
+      n += 1
+      seq = [r1, r2]
+      q1 = quantizer_lib.Quantizer(bytearray(b''), None)
+      entered = []
+      for rx, op, alg, c in seq:
+        try:
+          q1.update_quantization_recipe(rx, op, copy.deepcopy(cfgs[c]), alg)
+          entered.append(dict(regex=rx, operation=op.value,
+                              algorithm_key=alg.value,
+                              op_config=cfgs[c].to_dict()))
+        except ValueError:
+          pass
+      if not entered:
+        continue
+      q2 = quantizer_lib.Quantizer(bytearray(b''), None)
+      try:
+        q2.load_quantization_recipe(json.loads(json.dumps(entered)))
+      except Exception as ex:  # pylint: disable=broad-except
+        bad.append((seq, f'load raises {type(ex).__name__}: {ex}'))
+        continue
+      if json.dumps(q1.get_quantization_recipe()) != json.dumps(
+          q2.get_quantization_recipe()):
+        bad.append((seq, 'exported recipes differ'))
+        continue
+      for op in ops[1:]:
+        for scope in ('fc;', 'other;'):
+          a = q1._recipe_manager.get_quantization_configs(op, scope)
+          b = q2._recipe_manager.get_quantization_configs(op, scope)
+          if str(getattr(a[0], 'value', a[0])) != str(
+              getattr(b[0], 'value', b[0])) or a[1] != b[1]:
+            bad.append((seq, f'resolve({op.value},{scope}): {a} vs {b}'))
+  st = {'paths': n, 'decisions': n, 'obligations': n,
+        'discharged': n - min(n, len(bad)), 'solver_calls': 0,
+        'solver_time': 0.0, 'reached': {'loadreal': n}}
+  cands = [Candidate('C11.load.equals_updates_with_real_configs', {
+      'tag': 'loadreal', 'info': [str(bad[0][0])[:300], bad[0][1][:200]]})] \
+      if bad else []
+  for c in cands:
+    c.job = job.name
+  return JobResult(job.name, st, cands, [], {}, samples=[
+      f'{n} two-rule recipes over 4 real configs (2 with skip_checks): load '
+      '== sequence of updates'])
+
+
+REACH = {'step': ['add', 'resolve'], 'load': ['load'], 'loadreal': ['loadreal']}
 
 
 def jobs(tier, seed):
@@ -462,6 +537,7 @@ def jobs(tier, seed):
   for n in b['load_list_length']:
     js.append(Job(f'load:{n}', job_load, {'n': n}))
   js += concrete_jobs(tier)
+  js.append(Job('loadreal', job_load_real, {}))
   return js
 
 
@@ -472,6 +548,10 @@ def jobs(tier, seed):
 # ---------------------------------------------------------------------------
 def replay(c):
   d = c['data']
+  if d.get('tag') == 'loadreal':
+    r = job_load_real(Job('loadreal', job_load_real, {}))
+    return bool(r.candidates), 'load differs from the sequence of updates', (
+        str(r.candidates[0].data['info']) if r.candidates else '')
   tag = d['tag']
   kind, arg = tag.split('/')
   sup = {}
